@@ -328,6 +328,7 @@ pub struct WInterp<'a> {
     pub trace: Option<Vec<String>>,
     pub ended: bool,
     pub depth: usize,
+    pub dg: u64,
 }
 
 macro_rules! wtr {
@@ -353,7 +354,7 @@ impl<'a> WInterp<'a> {
             }
         }
         kinds(spec, st);
-        WInterp { root: Some(n), model: m, arena, viols: vec![], flags: WFlags::default(), st, step: 0, trace: if trace { Some(vec![format!("target = {}", spec.describe())]) } else { None }, ended: false, depth: spec.depth() }
+        WInterp { root: Some(n), model: m, arena, viols: vec![], flags: WFlags::default(), st, step: 0, trace: if trace { Some(vec![format!("target = {}", spec.describe())]) } else { None }, ended: false, depth: spec.depth(), dg: 0xcbf29ce484222325 }
     }
     fn v(&mut self, p: &'static str, o: &'static str, d: String) {
         if !self.viols.iter().any(|x| x.0 == p) {
@@ -368,6 +369,8 @@ impl<'a> WInterp<'a> {
             let Some(root) = self.root.as_mut() else { return };
             let room = self.model.room();
             let rm = root.remaining_mut();
+            self.dg ^= rm as u64;
+            self.dg = self.dg.wrapping_mul(0x100000001b3);
             if self.model.all_fixed() {
                 if rm != room {
                     bad.push(("C11", "remaining_mut-fixed-target", format!("remaining_mut()={} but the fixed-size target has room for {}", rm, room)));
@@ -426,6 +429,8 @@ impl<'a> WInterp<'a> {
         wtr!(self, "{} [{} bytes, room {} first chunk room {}]", what, bytes.len(), room, first);
         let root = self.root.as_mut().unwrap();
         let r = catch_unwind(AssertUnwindSafe(|| f(root)));
+        self.dg ^= (bytes.len() as u64) << 1 | r.is_ok() as u64;
+        self.dg = self.dg.wrapping_mul(0x100000001b3);
         match (fits, r.is_ok()) {
             (true, true) => {
                 if bytes.len() > first && first > 0 {
@@ -467,6 +472,7 @@ impl<'a> WInterp<'a> {
             return;
         }
         let code = code % 13;
+        let code = if crate::bufeng::digest_mode() && matches!(code, 9 | 10) { 13 } else { code };
         self.st.ops[code as usize] += 1;
         let room = self.model.room();
         let first = self.model.first_room();
@@ -738,6 +744,10 @@ fn check_fixed(left: usize, size: usize, content: &[u8], buf: &[u8], bad: &mut B
 }
 
 pub fn run_wcase(c: &WCase, st: &mut WStats, trace: bool) -> (Vec<(&'static str, &'static str, String, usize)>, WFlags, Option<Vec<String>>, usize) {
+    let (a, b, c2, d, _) = run_wcase_dg(c, st, trace);
+    (a, b, c2, d)
+}
+pub fn run_wcase_dg(c: &WCase, st: &mut WStats, trace: bool) -> (Vec<(&'static str, &'static str, String, usize)>, WFlags, Option<Vec<String>>, usize, u64) {
     let mut it = WInterp::new(&c.spec, st, trace);
     it.observe(true);
     for (i, op) in c.ops.iter().enumerate() {
@@ -749,7 +759,8 @@ pub fn run_wcase(c: &WCase, st: &mut WStats, trace: bool) -> (Vec<(&'static str,
     }
     let root = it.root.take();
     let _ = catch_unwind(AssertUnwindSafe(move || drop(root)));
-    (std::mem::take(&mut it.viols), it.flags, it.trace.take(), it.depth)
+    let dg = it.dg ^ (it.viols.len() as u64).wrapping_mul(0x9E3779B97F4A7C15);
+    (std::mem::take(&mut it.viols), it.flags, it.trace.take(), it.depth, dg)
 }
 
 // ---------------------------------------------------------------------------------------------
